@@ -106,13 +106,15 @@ func snapFiles(dir string) int {
 
 // serve is the child: one command per stdin line, one reply line on the saved stdout.
 func serve(dir string, portBase int, eng string, out *os.File) {
+	// the rsync of a remote snapshot is played by the parent (it copies a real checkpoint into the remote backup
+	// dir); must be in force BEFORE the node replays its log: a replayed TransferRemoteSnap request would otherwise
+	// run the real rsync against a source that does not exist and wipe the transferred checkpoint
+	common.SetStrDynamicConf(common.ConfIgnoreRemoteFileSync, "true")
 	kv, n, err := startServer(dir, portBase, eng)
 	if err != nil {
 		fmt.Fprintf(out, "FAIL %v\n", err)
 		return
 	}
-	// the rsync of a remote snapshot is played by the parent (it copies a real checkpoint into the remote backup dir)
-	common.SetStrDynamicConf(common.ConfIgnoreRemoteFileSync, "true")
 	fmt.Fprintf(out, "READY\n")
 	in := bufio.NewReader(os.Stdin)
 	for {
@@ -291,8 +293,19 @@ func (l *live) spawn() error {
 }
 
 func (l *live) spawnOnce() error {
-	cmd := exec.Command(os.Args[0], "-serve", l.dir, "-port", strconv.Itoa(l.port), "-engines", l.eng)
+	args := []string{"-serve", l.dir, "-port", strconv.Itoa(l.port), "-engines", l.eng}
+	var logf *os.File
+	if lp := os.Getenv("VERIF_SYNC_CHILDLOG"); lp != "" { // debugging aid: the child's repository logging
+		args = append(args, "-v")
+		logf, _ = os.OpenFile(lp, os.O_CREATE|os.O_APPEND|os.O_WRONLY, 0644)
+	}
+	cmd := exec.Command(os.Args[0], args...)
 	cmd.Stderr = nil
+	if logf != nil {
+		cmd.Stderr = logf
+		cmd.Stdout = logf
+		defer logf.Close()
+	}
 	in, err := cmd.StdinPipe()
 	if err != nil {
 		return err
